@@ -2,9 +2,14 @@
 
 package udphop
 
+import "net"
+
 // C19: constants of the package read by the fact extractor (lean/Hy/Gen/Extras.lean).
 const (
 	VerifPacketQueueSize    = packetQueueSize
 	VerifUDPBufferSize      = udpBufferSize
 	VerifDefaultHopInterval = defaultHopInterval
 )
+
+// VerifAddrs exposes (*UDPHopAddr).addrs for the `hopaddr` correspondence component.
+func VerifAddrs(a *UDPHopAddr) ([]net.Addr, error) { return a.addrs() }
